@@ -110,18 +110,21 @@ def verify_unit(unit_path: str, contracts, canary: bool = False, rlimit: float =
     extras: List[Tuple[str, str, str]] = []
     recoveries: List[str] = []
     base_sha = baseline_fn_sha()
-    for _round in range(6):
+    nodecr: set = set()
+    for _round in range(8):
         asm.set_drops(drop_clauses, drop_inserts)
+        asm.set_no_decreases(nodecr)
         try:
             a = asm.assemble(unit_path, contracts, canary=canary, extras=extras)
         except asm.LostAnchor as e:
             return UnitResult(unit, fname, '', 'lost-anchor', str(e), wall_s=time.time() - t0)
         finally:
             asm.set_drops(set(), set())
+            asm.set_no_decreases(set())
         with open(fname, 'w') as f:
             f.write(a.text)
         rc, out, err, cmd = run_verus(fname, rlimit, seed, threads)
-        new = _recover(a, err, os.path.basename(fname), base_sha, drop_clauses, drop_inserts, extras, recoveries)
+        new = _recover(a, err, os.path.basename(fname), base_sha, drop_clauses, drop_inserts, extras, recoveries, nodecr)
         if not new:
             break
     res = UnitResult(unit, fname, cmd, 'ok', assembled=a)
@@ -270,7 +273,8 @@ _UNKNOWN_FN = re.compile(r"cannot find function `(\w+)` in this scope")
 _UNKNOWN_METHOD = re.compile(r"no (?:method|function or associated item) named `(\w+)` found for [^`]*`[^`]*?(\w+)(?:<[^`]*>)?`")
 
 
-def _recover(a: asm.Assembled, err: str, base: str, base_sha, drop_clauses: set, drop_inserts: set, extras: list, log: list) -> bool:
+def _recover(a: asm.Assembled, err: str, base: str, base_sha, drop_clauses: set, drop_inserts: set, extras: list, log: list,
+             nodecr: Optional[set] = None) -> bool:
     """Front-end errors caused by a *changed* function are worked around so that the verifier can still be asked about the
     obligations (rules R25-R27); errors in unchanged text are never worked around.  Returns True if something new was done."""
     new = False
@@ -295,6 +299,12 @@ def _recover(a: asm.Assembled, err: str, base: str, base_sha, drop_clauses: set,
                 continue
             label = '%s::%s' % (fi.file, fi.item)
             changed = fi.auto_added or (label in base_sha and base_sha[label] != fi.sha256)
+            if nodecr is not None and 'must have a decreases clause' in msg and fi.mode == 'body' and (extras or changed) and label not in nodecr:
+                # a helper pulled in without a contract (R27), or the changed function itself, closed a new recursion cycle
+                nodecr.add(label)
+                log.append('R27 %s: is part of a recursion cycle through changed code; termination of that cycle is not claimed' % fi.item)
+                new = True
+                continue
             if o.get('kind') == 'clause' and (fi.mode == 'stub' and changed or fi.mode == 'body' and changed):
                 key = (o.get('fn'), o.get('label'))
                 if key not in drop_clauses:
